@@ -115,12 +115,18 @@ func (r *RibEntry) pruneIfEmpty() {
 	}
 }
 
+// updateNexthopsEnc recomputes the nexthops of this entry and of all entries
+// below it, and publishes them to the FIB in one atomic step, so that a
+// concurrent lookup never sees a cleared or partially rebuilt nexthop set.
 func (r *RibEntry) updateNexthopsEnc() {
-	// Path-filler nodes have no name (and no FIB entry of their own)
-	if r.Name != nil {
-		FibStrategyTable.ClearNextHopsEnc(r.Name)
-	}
+	var updates []FibNextHopsUpdate
+	r.collectNexthopsEnc(&updates)
+	FibStrategyTable.ReplaceNextHopsEnc(updates)
+}
 
+// collectNexthopsEnc appends the "flattened" nexthop sets of this entry and
+// of all entries below it to updates.
+func (r *RibEntry) collectNexthopsEnc(updates *[]FibNextHopsUpdate) {
 	// All routes including parents if needed
 	routes := append([]*Route{}, r.routes...)
 
@@ -152,14 +158,19 @@ func (r *RibEntry) updateNexthopsEnc() {
 		}
 	}
 
-	// Add "flattened" set of nexthops
-	for nexthop, cost := range minCostRoutes {
-		FibStrategyTable.InsertNextHopEnc(r.Name, nexthop, cost)
+	// Add "flattened" set of nexthops. Path-filler nodes have no name
+	// (and no FIB entry of their own)
+	if r.Name != nil {
+		nexthops := make([]FibNextHopEntry, 0, len(minCostRoutes))
+		for nexthop, cost := range minCostRoutes {
+			nexthops = append(nexthops, FibNextHopEntry{Nexthop: nexthop, Cost: cost})
+		}
+		*updates = append(*updates, FibNextHopsUpdate{Name: r.Name, Nexthops: nexthops})
 	}
 
 	// Trigger update for all children for inheritance
 	for child := range r.children {
-		child.updateNexthopsEnc()
+		child.collectNexthopsEnc(updates)
 	}
 }
 
@@ -263,11 +274,15 @@ func (r *RibTable) CleanUpFace(faceId uint64) {
 	r.mutex.Lock()
 	defer r.mutex.Unlock()
 
-	r.RibEntry.cleanUpFace(faceId)
+	// All FIB changes of the clean-up are published in one atomic step
+	var updates []FibNextHopsUpdate
+	r.RibEntry.cleanUpFace(faceId, &updates)
+	FibStrategyTable.ReplaceNextHopsEnc(updates)
 }
 
-// cleanUpFace removes the specified face from this entry and all entries below it.
-func (r *RibEntry) cleanUpFace(faceId uint64) {
+// cleanUpFace removes the specified face from this entry and all entries below it,
+// and appends the resulting FIB changes to updates.
+func (r *RibEntry) cleanUpFace(faceId uint64, updates *[]FibNextHopsUpdate) {
 	// Remove all routes of the face (there may be one per origin) from this
 	// entry first, so that children no longer inherit them when they update
 	kept := make([]*Route, 0, len(r.routes))
@@ -283,11 +298,11 @@ func (r *RibEntry) cleanUpFace(faceId uint64) {
 
 	// Recursively clean children
 	for child := range r.children {
-		child.cleanUpFace(faceId)
+		child.cleanUpFace(faceId, updates)
 	}
 
 	if removed {
-		r.updateNexthopsEnc()
+		r.collectNexthopsEnc(updates)
 	}
 	r.pruneIfEmpty()
 }
